@@ -5,6 +5,7 @@ with write / read faults and kills placed inside save and restore."""
 from __future__ import annotations
 
 import json
+from fractions import Fraction
 from typing import Any, Dict, List, Optional, Set, Tuple
 
 from .. import driver, worldgen
@@ -59,8 +60,12 @@ def gen_analyze(rng: Rng, world: Dict[str, Any], inc: bool = True) -> Dict[str, 
 def gen_edits(rng: Rng) -> List[Dict[str, Any]]:
     edits = []
     for _ in range(rng.randint(1, 6)):
-        kind = rng.weighted([("speedup", 4), ("slowdown", 3), ("zero", 1), ("set", 1)])
+        kind = rng.weighted([("speedup", 4), ("slowdown", 3), ("zero", 1), ("set", 1), ("scale", 4)])
         pick = rng.below(10000)
+        if kind == "scale":
+            # "what if this were 2x faster / 1.5x slower": fractional weights, exact in binary
+            edits.append({"pick": pick, "mul": rng.choice([0.5, 0.5, 0.25, 0.75, 1.5, 2.5])})
+            continue
         if kind == "speedup":
             edits.append({"pick": pick, "num": rng.choice([1, 1, 3]), "den": rng.choice([2, 4, 10])})
         elif kind == "slowdown":
@@ -182,16 +187,20 @@ def gen_plan(rng: Rng, tier: str, kind: str, faulty: bool = False) -> Dict[str, 
 
 
 # -- reference: longest path by topological DP ----------------------------------------------------
-def longest_path_weight(nodes: List[int], edges: List[List[Any]]) -> Optional[float]:
+def _w(w: Any) -> Fraction:
+    return Fraction(1) if w is None else Fraction(w)
+
+
+def longest_path_weight(nodes: List[int], edges: List[List[Any]]) -> Optional[Fraction]:
     succ: Dict[int, List[Tuple[int, float]]] = {n: [] for n in nodes}
     indeg: Dict[int, int] = {n: 0 for n in nodes}
     for u, v, w, _o in edges:
-        succ.setdefault(u, []).append((v, w if w is not None else 1))
+        succ.setdefault(u, []).append((v, _w(w)))
         indeg[v] = indeg.get(v, 0) + 1
         indeg.setdefault(u, 0)
         succ.setdefault(v, [])
     order = [n for n, d in indeg.items() if d == 0]
-    best: Dict[int, float] = {n: 0 for n in indeg}
+    best: Dict[int, Fraction] = {n: Fraction(0) for n in indeg}
     seen = 0
     i = 0
     while i < len(order):
@@ -220,18 +229,18 @@ def check_path(res: Result, obs: Dict[str, Any], node_list: List[List[Any]], edi
     if len(path) < 2:
         res.violate("C09", f"path-too-short/{what}", {"path": path}, si, oi)
         return None
-    total = 0
+    total = Fraction(0)
     for a, b in zip(path, path[1:]):
         if (a, b) not in emap:
             res.violate("C09", f"path-not-connected/{what}", {"pair": [a, b]}, si, oi)
             return None
-        total += emap[(a, b)][0] if emap[(a, b)][0] is not None else 1
+        total += _w(emap[(a, b)][0])
     best = longest_path_weight(obs["nodes_set"], edges)
     if best is None:
         res.probe("cyclic_graph")
         return total
     if total != best:
-        res.violate("C09", f"not-maximal/{what}", {"path_weight": total, "max_weight": best, "len": len(path)}, si, oi)
+        res.violate("C09", f"not-maximal/{what}", {"path_weight": str(total), "max_weight": str(best), "len": len(path)}, si, oi)
     want_events = sorted({node_list[n][1] for n in path}) if node_list else None
     if want_events is not None and obs["critical_path_events_set"] != want_events:
         res.violate("C09", f"events-set/{what}", {"got": obs["critical_path_events_set"][:20], "want": want_events[:20]}, si, oi)
@@ -244,7 +253,7 @@ def check_path(res: Result, obs: Dict[str, Any], node_list: List[List[Any]], edi
         ts = [n[2] for n in node_list]
         makespan = max(ts) - min(ts)
         if total > makespan:
-            res.violate("C09", f"exceeds-makespan/{what}", {"total": total, "makespan": makespan}, si, oi)
+            res.violate("C09", f"exceeds-makespan/{what}", {"total": str(total), "makespan": makespan}, si, oi)
     return total
 
 
@@ -310,7 +319,7 @@ def check(plan: Dict[str, Any], execution: Dict[str, Any], props: Optional[Set[s
                     if kind == "cp_recompute" and r.get("exc") == "ValueError":
                         res.probe("recompute_rejected_graph")
                         continue
-                    if kind == "cp_recompute" and g.get("obs") and longest_path_weight(g["obs"]["nodes_set"], g["obs"]["edges"]) in (0, None):
+                    if kind == "cp_recompute" and g.get("obs") and longest_path_weight(g["obs"]["nodes_set"], g["obs"]["edges"]) in (Fraction(0), None):
                         # degenerate what-if graph: no path of positive weight exists
                         res.probe("degenerate_zero_weight_graph")
                         continue
@@ -338,7 +347,7 @@ def check(plan: Dict[str, Any], execution: Dict[str, Any], props: Optional[Set[s
                     if g.get("restored"):
                         res.probe("recompute_on_restored_graph")
                         if not g.get("edited_since_restore") and g.get("saved_total") is not None and tot is not None and tot != g["saved_total"]:
-                            res.violate("C19", "recompute-total-differs", {"restored": tot, "original": g["saved_total"]}, si, r["i"])
+                            res.violate("C19", "recompute-total-differs", {"restored": str(tot), "original": str(g["saved_total"])}, si, r["i"])
                     g["obs"] = dict(g["obs"], **{k: obs[k] for k in obs if k in GRAPH_KEYS}) if g.get("obs") else obs
                     g["total"] = tot
                     g["bd"] = None
